@@ -4,9 +4,11 @@ C29 — Every collective algorithm computes the MPI result.  Property theorems.
 
 (A) theorems on the SPEC (Model.lean §Spec), for every communicator size, count, buffers, and every operator that is
     associative (+ commutative where stated);
-(B) schedule theorems: the round-based models of allreduce-rdb (incl. its non-power-of-two pre/post phase) and
-    allgather-ring compute the spec's result for EVERY communicator size.
-The ≈180 other selectable algorithms are not modelled: they are tied to the spec by the correspondence only.
+(B) schedule theorem: the round-based model of allreduce-rdb (incl. its non-power-of-two pre/post phase) computes the
+    spec's result for EVERY communicator size and rank (`allreduce_rdb_eq_spec`).
+    NOT proved (modelled in Model.lean and compared with the library on the grid only): bcast binomial_tree,
+    allgather ring, alltoall pair.  The ≈180 other selectable algorithms are not modelled at all: they are tied to the
+    spec by the correspondence only.
 -/
 namespace SgVerif.C29
 variable {α : Type}
